@@ -1,0 +1,13 @@
+//go:build !verif
+
+// Package verifhook provides schedule points for the verification harness.
+//
+// With the verif build tag a handler may be installed that is called at every point;
+// without the tag Point is an empty function.
+package verifhook
+
+// Enabled indicates the hooks are compiled in.
+const Enabled = false
+
+// Point is a schedule point (no-op without the verif build tag).
+func Point(kind string, obj any) {}
